@@ -143,6 +143,31 @@ func registries(m *modSpec, o *obsResult, pkgName string, withRand bool) string 
 		}
 		b.WriteString("},\n")
 	}
+	// every constant of the enum, the unexported ones of the analysed package included: the values a Go program can hold
+	b.WriteString("}\n\nvar VerifEnumsAll = map[string][]interface{}{\n")
+	seenAll := map[string]bool{}
+	for _, n := range o.Nameds {
+		if n.Kind != "KdEnum" || seenAll[n.ID] {
+			continue
+		}
+		seenAll[n.ID] = true
+		qual := ""
+		if n.PkgPath != o.RootPkg {
+			qual = n.PkgName + "."
+		}
+		fmt.Fprintf(&b, "\t%q: {", n.PkgName+"."+n.Local)
+		for _, c := range n.Members {
+			fmt.Fprintf(&b, "%s%s, ", qual, c)
+		}
+		if n.PkgPath == o.RootPkg {
+			for _, c := range n.Hidden {
+				if c != "_" {
+					fmt.Fprintf(&b, "%s, ", c)
+				}
+			}
+		}
+		b.WriteString("},\n")
+	}
 	b.WriteString("}\n\nvar VerifRand = map[string]func() interface{}{\n")
 	if withRand {
 		rd := o.Gen["randdata"].Text
